@@ -73,7 +73,10 @@ ends in failure, the fault-free run (`clean`, `pclean`) completes.
 `comp <st0> <script> <fault>`: the component handshake model (`Model/Component.lean`). -/
 def handle (args : List String) : Option String :=
   match args with
-  | ["hs", _name, kind, _n] =>
+  | ["hs", _name, kind0, _n] =>
+    -- a suffix `.d` / `.p` / `.n` names the kind of context that is done; the model only knows
+    -- "the context is done"
+    let kind := (kind0.splitOn ".").headD kind0
     if kind == "clean" || kind == "pclean" || kind == "cleanb" then some "done"
     else if kind == "cut" || kind == "rd" || kind == "wr" || kind == "cancel" || kind == "pwr" || kind == "prd"
         || kind == "rdb"
